@@ -278,6 +278,15 @@ class HistGen:
             self.episode = [{'op': 'store', 'ev': dl}, {'op': 'store', 'ev': e2}, mid, {'op': 'store', 'ev': d2},
                             {'op': 'store', 'ev': e1}, {'op': 'store', 'ev': e3}]
             return {'op': 'store', 'ev': e1}
+        if f == 'C16' and rng.random() < 0.06:
+            # a rebuild of a store holding several chunks of live events, after which the SAME store keeps being used until the
+            # compacted map has to grow again (no reopen in between)
+            n1, n2 = rng.choice([7, 9, 12]), rng.choice([6, 9, 14])
+            eps = [{'op': 'store', 'ev': self.new_event(kind=1, tags=[[b't', b'a']], content=b'b' * rng.choice([600, 800, 1100]))} for _ in range(n1)]
+            eps.append({'op': 'rebuild'})
+            eps += [{'op': 'store', 'ev': self.new_event(kind=1, tags=[], content=b'a' * rng.choice([300, 700, 900]))} for _ in range(n2)]
+            self.episode = eps[1:]
+            return eps[0]
         if f == 'C18' and rng.random() < 0.1:
             # a vanish episode: a gift wrap naming P, gift wraps whose p value is NOT P's hex but shares its 182-byte index key or a
             # prefix with it, an event by P - then P vanishes: exactly P's events and the wraps naming P go
